@@ -62,6 +62,7 @@ def generate(rng, tier, enum_size=5, enum_len=3, sample5=1500, n_random=1000, na
         fl = flags_for(rules, root, False)
         for w in ([A, B, B, B], [B, B], [A, A, B], G.rand_input(rng, 4)):
             out.append((G.case_text(rules, root, w, flags=fl), {"stream": "enumerated-sample", "unproductive": unprod(rules, root)}))
+    out += clamp_cases()
     out += shared_memo_cases(rng, 500 if tier == "quick" else 6000)
     for i in range(n_random):
         ops = G.MONO if i % 3 == 0 else G.FULL
@@ -127,6 +128,37 @@ def shared_memo_cases(rng, n):
         for t in rng.sample([C, D, E, F], 2):
             w = [A] * rng.choice([1, 1, 2, 3]) + [t]
             out.append((G.case_text(rules, root, w, flags=fl), {"stream": "shared-memo", "unproductive": False}))
+    return out
+
+
+
+def clamp_cases():
+    """deterministic family: a memoized parser M with k distinguishable results looked up three or four times at one
+    position: one evaluation, then cache hits whose consumers extend the cached list differently, one of them memoized
+    and read again afterwards.  S -> M c | U1 d | U2 e | U1 f with U1 = Memoize(Any(M, Y1)), U2 = Any(M, Y2): a cached
+    list that keeps spare capacity (k = 3, 5, 6, 7) lets the second hit overwrite what the first hit appended."""
+    out = []
+    C, D, E, F = 99, 100, 101, 102
+    shapes = [('rune', A), G.seqof(('rune', A)), G.seqof(('rune', A), ('empty',)), G.seqof(('empty',), ('rune', A)),
+              G.seqof(('empty',), ('rune', A), ('empty',)), G.seqof(('rune', A), ('empty',), ('empty',)),
+              G.seqof(('empty',), ('empty',), ('rune', A))]
+    y1 = G.seqof(G.seqof(('rune', A)))
+    y2 = G.seqof(G.seqof(('rune', A)), ('empty',))
+    for k in (2, 3, 4, 5, 6, 7):
+        for variant in range(4):
+            m = ('any', shapes[:k])
+            u1 = ('memo', 0, ('any', [('ref', 1), y1])) if variant % 2 == 0 else ('memo', 0, ('opt', ('ref', 1)))
+            u2 = ('any', [('ref', 1), y2]) if variant < 2 else ('opt', ('ref', 1))
+            if variant >= 2 and variant % 2 == 1:
+                u2 = ('any', [('ref', 1), y2])
+            # rule 0: S, rule 1: M, rule 2: U1 (so that the SAME memoized consumer is used twice)
+            rules = [('memo', 1, ('any', [G.seqof(('ref', 1), ('rune', C)), G.seqof(('ref', 2), ('rune', D)),
+                                          G.seqof(u2, ('rune', E)), G.seqof(('ref', 2), ('rune', F))])),
+                     ('memo', 2, m), u1]
+            rules, root = G.uniquify_memo(rules, ('ref', 0))
+            fl = flags_for(rules, root, False)
+            for tail in (C, D, E, F):
+                out.append((G.case_text(rules, root, [A, tail], flags=fl), {"stream": "clamp-family", "unproductive": False}))
     return out
 
 
